@@ -99,13 +99,15 @@ Shape(s) == (IF Len(s.exports) = 0 THEN (IF s.variant = "initdecl" THEN "declare
             \o ":" \o s.kind \o (IF s.variant = "samemodule" THEN ":same-module-name" ELSE IF s.variant = "suffixalias" THEN ":name-is-suffix-of-aliased-name" ELSE IF s.variant = "stdlibname" THEN ":module-named-like-imported-stdlib-module" ELSE IF s.variant = "exccls" THEN ":exception-class" ELSE IF s.variant = "pkgmodreexp" THEN ":package-file-re-exported-as-module" ELSE "")
 (* members a class declaration must show, each exactly once (the private helper never) *)
 OwnMember(t) == IF t = 1 THEN "m_d1" ELSE "m_d2"
-ExpectedMembers(s, t) == IF s.kind # "class" THEN {} ELSE { OwnMember(t) } \cup (IF s.variant = "sharedbase" THEN { "m_shared" } ELSE {})
+ExpectedMembers(s, t) == IF s.kind # "class" THEN {} ELSE { OwnMember(t) } \cup (IF s.variant = "sharedbase" THEN { "m_shared", "Options" } ELSE {})     \* Options: public nested class of the private base
 MCount(ms, m) == Cardinality({ j \in 1..Len(ms) : ms[j] = m })
 JudgeMembers(s, d) ==
   IF s.kind # "class" \/ Len(d.occs) # 1 \/ ~PublicDecl(s, d.tgt) THEN {}
   ELSE LET ms == d.occs[1].members IN
        { [property |-> "C03", clause |-> "ExactlyOnce", sig |-> "u2:member-" \o (IF MCount(ms, m) = 0 THEN "dropped" ELSE "duplicated") \o ":" \o s.variant \o ":" \o m,
           expected |-> "1", observed |-> ToString(MCount(ms, m))] : m \in { m \in ExpectedMembers(s, d.tgt) : MCount(ms, m) # 1 } }
+       \cup { [property |-> "C04", clause |-> "NoLeak", sig |-> "u2:private-member-in-public-class:" \o s.variant, expected |-> "<<>>", observed |-> ToString(d.occs[1].privmembers)]
+              : x \in { 1 } \cap { IF d.occs[1].privmembers = << >> THEN 0 ELSE 1 } }
        \cup { [property |-> "C03", clause |-> "ExactlyOnce", sig |-> "u2:member-duplicated:" \o s.variant \o ":other", expected |-> "1", observed |-> ms[j]]
               : j \in { j \in 1..Len(ms) : MCount(ms, ms[j]) > 1 /\ ms[j] \notin ExpectedMembers(s, d.tgt) } }
 Judge(s, obs) ==
